@@ -1,5 +1,4 @@
 use futures::stream::{FuturesUnordered, Stream, StreamExt};
-use itertools::Itertools;
 use std::borrow::Borrow;
 use std::fmt::Debug;
 use std::hash::Hash;
@@ -447,16 +446,31 @@ where
         }
     }
 
+    /// Locks all entries that are currently unlocked, carry a value and whose value fulfills `condition`,
+    /// and returns their guards. Entries that aren't returned are left untouched.
     pub fn lock_all_unlocked<S: Borrow<Self> + Clone>(
         this: S,
-        take_while_condition: &impl Fn(&Guard<K, V, C, S>) -> bool,
+        condition: &impl Fn(&C::WrappedV<V>) -> bool,
     ) -> Vec<Guard<K, V, C, S>> {
         let entries = this.borrow()._entries();
-        let mut previously_unlocked_entries = entries
+        entries
             .iter()
             .filter_map(
                 |(key, mutex)| match PrimaryArc::clone(mutex).try_lock_owned() {
-                    Ok(guard) => Some(Self::_make_guard(this.clone(), key.clone(), guard)),
+                    Ok(guard) => match guard.value.as_ref() {
+                        Some(value) if condition(value) => {
+                            Some(Self::_make_guard(this.clone(), key.clone(), guard))
+                        }
+                        _ => {
+                            // The entry either doesn't fulfill the condition, or it is a `None` entry that somebody else
+                            // holds a [ReplicaArc] for and will clean up (invariant 2). We must not wrap it into a [Guard]
+                            // (its destructor would call `on_unlock` and try to lock `entries` again).
+                            // Just dropping the [ReplicaOwnedMutexGuard] here without calling
+                            // [Self::_delete_if_unlocked_none_and_nobody_waiting_for_lock] is fine despite invariant 2C,
+                            // because we hold a lock on `entries` and had that lock since the call to [PrimaryArc::clone].
+                            None
+                        }
+                    },
                     Err(_) => {
                         // Just dropping the [ReplicaArc] here without calling [Self::_delete_if_unlocked_none_and_nobody_waiting_for_lock] is fine
                         // despite invariant 2C, because we hold a lock on `entries` and had that lock since the call to [PrimaryArc::clone].
@@ -464,30 +478,9 @@ where
                     }
                 },
             )
-            .take_while_inclusive(take_while_condition)
             // Collecting into a Vec so that we don't have to keep `entries` locked
             // while the returned iterator is alive.
-            .collect::<Vec<_>>();
-
-        // We now have all entries fulfilling the `take_while_condition` plus one entry that probably does not
-        // (however, it might fulfill the condition if all entries fulfill it).
-        // We need to remove that last entry and drop it, but before we can do that, we need to drop
-        // `entries` because otherwise we'd have a deadlock when the entry tries to unlock itself.
-        // This whole issue is actually the reason why we used `take_while_inclusive` instead of just
-        // `take_while` above. `take_while` would drop this entry while the stream is being processed
-        // and cause this very deadlock.
-
-        std::mem::drop(entries);
-        if let Some(last_entry) = previously_unlocked_entries.pop() {
-            if take_while_condition(&last_entry) {
-                // It actually fulfilled the take_while_condition.
-                // This can happen if all entries in the map fulfill the condition and this was the overall last map element.
-                // We actually want to return it, so add it back to the return value.
-                previously_unlocked_entries.push(last_entry);
-            }
-        }
-
-        previously_unlocked_entries
+            .collect::<Vec<_>>()
     }
 
     /// Locks all entries in the cache and returns their guards as a stream.
